@@ -4,6 +4,7 @@
 #include <vector>
 
 #include "ops_common.hpp"
+#include "smooth/derivatives.hpp"
 #include "smooth/detail/utils.hpp"
 #include "smooth/polynomial/basis.hpp"
 #include "smooth/polynomial/quadrature.hpp"
@@ -40,7 +41,8 @@ static void put_sm(Out& out, const M& m) {
 }
 
 static const char* const kUtilFn[] = {"monomial_derivatives", "basis_tables", "lagrange_basis", "basis_derivatives",
-                                      "integrate_abs_poly", "binary_interval_search", "quadrature_nodes", "cumulative_basis"};
+                                      "integrate_abs_poly", "binary_interval_search", "quadrature_nodes", "cumulative_basis",
+                                      "d_matrix_product", "d2_fog"};
 
 struct UtilSt {
   const UtilData* d;
@@ -100,10 +102,46 @@ static void util_run(OpInst& op, Out& out) {
       put_sm(out, polynomial_cumulative_basis<PolynomialBasis::Bernstein, 5>());
       put_sm(out, monomial_integral<3, 2>());
       break;
+    case 8: {
+      // derivative of a matrix product, fixed and dynamic sizes (inputs derived from the shared knots)
+      Eigen::Matrix<double, 3, 3> A, B;
+      Eigen::Matrix<double, 3, 6> dA, dB;
+      for (int i = 0; i < 3; ++i)
+        for (int j = 0; j < 3; ++j) {
+          A(i, j) = d.knots[(std::size_t)((i + j) % (int)d.knots.size())] + in.sym(0.1);
+          B(i, j) = d.nodes[(std::size_t)((i * 2 + j) % 5)];
+        }
+      for (int i = 0; i < 3; ++i)
+        for (int j = 0; j < 6; ++j) {
+          dA(i, j) = in.sym(1.0);
+          dB(i, j) = in.sym(1.0);
+        }
+      put_mat(out, d_matrix_product(A, dA, B, dB));
+      const Eigen::MatrixXd Ad = A, Bd = B, dAd = dA, dBd = dB;
+      put_mat(out, d_matrix_product(Ad, dAd, Bd, dBd));
+      break;
+    }
+    case 9: {
+      // second derivative of a composition f o g
+      Eigen::Matrix<double, 2, 3> Jf;
+      Eigen::Matrix<double, 3, 6> Hf;
+      Eigen::Matrix<double, 3, 2> Jg;
+      Eigen::Matrix<double, 2, 6> Hg;
+      for (int i = 0; i < 2; ++i)
+        for (int j = 0; j < 3; ++j) Jf(i, j) = d.nodes[(std::size_t)((i + j) % 5)] + in.sym(0.2);
+      for (int i = 0; i < 3; ++i)
+        for (int j = 0; j < 6; ++j) Hf(i, j) = in.sym(1.0);
+      for (int i = 0; i < 3; ++i)
+        for (int j = 0; j < 2; ++j) Jg(i, j) = in.sym(1.0);
+      for (int i = 0; i < 2; ++i)
+        for (int j = 0; j < 6; ++j) Hg(i, j) = in.sym(1.0);
+      put_mat(out, d2_fog(Jf, Hf, Jg, Hg));
+      break;
+    }
     default: out.tag("?"); break;
   }
 }
-static constexpr OpDef util_def = {"util.poly", "H", 8, kUtilFn, 3, 6, 0, 0, &util_prep, &util_run};
+static constexpr OpDef util_def = {"util.poly", "H", 10, kUtilFn, 3, 6, 0, 0, &util_prep, &util_run};
 static Registrar reg_util(&util_def);
 
 }  // namespace ops
